@@ -18,7 +18,7 @@ import itertools
 from ..gates import X, kleene_gate
 from ..pkgenv import Package
 from ..refmodel import RefBlackBox, RefCircuit, build, free_nodes, simulate
-from ..semantic import deep_circuits, one_gate_circuits, two_level_circuits
+from ..semantic import guarded, deep_circuits, one_gate_circuits, two_level_circuits
 
 FILE = "tx.py"
 
@@ -33,6 +33,7 @@ def kleene_sim(c, assign):
     return val
 
 
+@guarded
 def check_ternary(c, t, mapping):
     if not isinstance(t, RefCircuit) or not isinstance(mapping, dict):
         return {"problem": "ternary() does not return (Circuit, dict)"}
